@@ -64,6 +64,8 @@ class Prop(SeqProp):
             Case(["new", "create 0", "create 0", "unlink 0", "remove 0 0", "remove 0 5", "create 0", "raise"], {"mp": False},
                  "deleted behind the back, unlisted removal, exception exit"),
             Case(["fp_new 0 1 2", "fp_enter", "fp_raise"], {"mp": False, "modes": "w"}, "FilePool left by exception"),
+            Case(["fp_new 0 1 2 3", "fp_enter", "fp_exit"], {"mp": False, "modes": "a", "body_close": [0, 1]},
+                 "FilePool whose body closed two of the handles itself"),
             Case(["new", "create 0", "create 0", "remove 0 0", "create 0", "exit"], {"mp": False, "foreign": True},
                  "pool constructed in one process, with-block in a forked child"),
             Case(["new", "create 0", "fork 0", "create 1", "flush 1", "create 1", "create 0", "raise"], {"mp": True, "foreign": True},
@@ -75,8 +77,10 @@ class Prop(SeqProp):
         for k in range(n):
             if rng.random() < 0.15:
                 m = rng.randint(0, 5)
+                # the with-body may use the handles as it likes: write / read them, close some of them itself
                 yield Case([("fp_new " + " ".join(map(str, range(m)))).rstrip(), "fp_enter", rng.choice(["fp_exit", "fp_raise"])],
-                           {"mp": False, "modes": rng.choice(["r", "w", "a"])})
+                           {"mp": False, "modes": rng.choice(["r", "w", "a"]),
+                            "body_close": sorted(rng.sample(range(m), rng.randint(0, m))) if rng.random() < 0.5 else []})
                 continue
             mp_case = k < n_mp
             ops = ["new"]
@@ -286,6 +290,12 @@ class Prop(SeqProp):
                         ok = r is fp and len(fp) == len(paths) and list(fp) == paths
                         out.append("open:" + ",".join("1" if not h.closed else "0" for h in handles) + ("" if ok else " mapping-mismatch"))
                     elif w[0] in ("fp_exit", "fp_raise"):
+                        for k in case.meta.get("body_close", []):
+                            if k % 2:
+                                with fp[paths[k]] as fh:  # the body uses one pooled handle as a context manager of its own
+                                    fh.read() if mode == "r" else fh.write("body\n")
+                            else:
+                                fp[paths[k]].close()
                         if w[0] == "fp_exit":
                             fp.__exit__(None, None, None)
                         else:
